@@ -1133,7 +1133,16 @@ def judge_case(ctx, case, R, M, content=None, step=""):
         psub = {"content": case["content"], "points": [p], **extra}
         mp_ = None if M is None else M["points"][i]
         # numeric right-hand side: real vs numeric core (C01's tie, repeated on these models)
-        if mp_ is not None:
+        # a point at which a denominator of the (specification's) equations vanishes is outside the model: Python raises
+        # ZeroDivisionError or, in floats, divides by a rounding residue (huge values where exact arithmetic has 0/0)
+        # (the numeric core is C01's subject; here it is compared only where the order-free specification has values:
+        # the model converts and no denominator vanishes -- for a model that does not convert nothing tells a vanishing
+        # denominator from a real difference)
+        zero_den = mp_ is not None and mp_["s"] is None
+        if zero_den and not exact:
+            ctx.hist["numeric_rhs_not_judged_rational_without_spec_values"] = \
+                ctx.hist.get("numeric_rhs_not_judged_rational_without_spec_values", 0) + 1
+        if mp_ is not None and not (zero_den and not exact):
             r_rhs = R["rhs"][i]
             s_rhs = mp_["rhs"] if "ok" in mp_["rhs"] else {"err": [mp_["rhs"]["err"][0]] + mp_["rhs"]["err"][1:2]}
             if "ok" in r_rhs and "ok" in s_rhs:
